@@ -37,6 +37,14 @@ def run(ck, ctx):
                      "the generated `serialize` writes as many fields as the struct declares and the generated `visit_seq` reads as many "
                      "(`#[serde(skip)]` on a field of a CRDT - e.g. the OR-Set's tag counter - makes the decoded value behave differently "
                      "from the encoded one although it compares equal)")
+    ck.rule("R14.13", READER_TEXT)
+    ck.rule("R14.15", "field coverage of every encoded type is the derive's: Serialize/Deserialize of the persisted and gossiped types are the "
+                      "derive-generated impls (whose field counts R14.8 checks); the only hand-written pair is SDS (R14.5). A hand-written impl "
+                      "for any other type is reported - it can leave a field out and rebuild it from another one on decode (e.g. a delta's "
+                      "source_replica from the value's stamp), which is not the identity on all fields")
+    ck.rule("R14.14", "what validate() vouched for is what gets decoded: the segment reader and its record iterator decode the record block exactly as "
+                      "read/decompressed - no truncate/resize/drain/split/strip of those bytes (e.g. to a footer size field that no checksum "
+                      "covers): damage to such a field would shorten the decoded stream silently instead of being detected")
     ck.rule("R14.9", "an encoder encodes what it was given: the checkpoint writer (and the manager in front of it) passes the state map it "
                      "received into the encoded CheckpointData unchanged - no retain/filter/remove on the way - and key_count is its length")
     ck.rule("R14.11", "encodings stay in serde's plain derived form: no Serialize/Deserialize impl of a replication or streaming type goes "
@@ -61,6 +69,10 @@ def run(ck, ctx):
         _r145(ck, prog, cfg)
         _r148(ck, prog, cfg)
         _r149(ck, prog, cfg)
+        reader_rule(ck, prog, cfg, "R14.13")
+        _r1415(ck, prog, cfg)
+        from . import c10 as _c10r
+        _c10r.r109(ck, prog, cfg, "R14.14", file="src/streaming/segment.rs", owners=("SegmentReader", "DeltaIterator"), what="segment reader", floor=5)
         _r1411(ck, prog, cfg)
         _bounds.rule(ck, prog, cfg, "R14.10", ("src/streaming/wal.rs", "src/streaming/segment.rs", "src/streaming/checkpoint.rs"),
                      "a truncated segment, checkpoint or WAL image", exempt={"CheckpointReader::<'a>::load": "load() reads the offsets validate() has checked; R14.4 requires a successful validate() before every load() on the recovery and checkpoint paths"}, floor=20, tag=_tag(cfg))
@@ -569,3 +581,58 @@ def _r1411(ck, prog, cfg):
     ck.floor("R14.11:impls-scanned" + _tag(cfg), n, 100)
     if hits == 0:
         ck.ok("R14.11", "serde-impls-plain" + _tag(cfg), "%d derived/manual serde impl functions scanned" % n)
+
+
+# ------------------------------------------------------------------------------------------------
+READER_TEXT = ("a decoder returns what it decoded: the functions that hand a decoded checkpoint to recovery (CheckpointReader::load, "
+               "CheckpointManager::load_checkpoint) return the deserialised CheckpointData itself - nothing removes, filters or rewrites "
+               "entries of the decoded state on the way out (a tombstone dropped here is a persisted delete that recovery never sees: an "
+               "older update of the key in a later segment or the WAL resurrects it)")
+NARROW = (r"HashMap::<std::string::String, .*ReplicatedValue.*>::(retain|remove|drain|clear|extract_if|insert|entry|get_mut|iter_mut|values_mut)(::<.*>)?$",
+          r"Iterator>?::(filter|filter_map|take|skip|take_while|skip_while)(::<.*>)?$")
+
+
+def reader_rule(ck, prog, cfg, rid):
+    n = 0
+    for f in prog.lib_fns():
+        if f.file != "src/streaming/checkpoint.rs" or "::tests::" in f.id:
+            continue
+        ret = str(f.locals[0]) if f.locals else ""
+        body = f
+        if f.kind == "coroutine":
+            ret = str(f.d.get("ret", "")) or ret
+        if "Result<streaming::checkpoint::CheckpointData" not in ret and not (f.kind == "coroutine" and re.search(r"::load_checkpoint::\{closure#0\}$", f.id)):
+            continue
+        n += 1
+        short = re.sub(r"::\{closure#\d+\}", "", f.id).replace("streaming::checkpoint::", "")
+        narrow = []
+        for g in prog.with_children(body):
+            for b, t in g.calls():
+                if is_callee(t, *NARROW):
+                    narrow.append((g, t))
+        ck.check(not narrow, rid, "%s:decoded-state-returned-whole%s" % (short, _tag(cfg)),
+                 "%s modifies the state it has just decoded (%s) before returning it: entries that were persisted in the checkpoint never reach "
+                 "recovery" % (short, callee(narrow[0][1]).rsplit("::", 1)[-1] if narrow else ""),
+                 (narrow[0][0] if narrow else f).where(narrow[0][1]["ln"] if narrow else None), detail="no retain/remove/filter on the decoded state")
+    ck.floor(rid + _tag(cfg), n, 2)
+
+
+def _r1415(ck, prog, cfg):
+    derived = 0
+    manual = []
+    for f in prog.lib_fns():
+        imp = f.d.get("implements") or ""
+        if not (imp.endswith("Serialize::serialize") or imp.endswith("Deserialize::deserialize")) or "::tests::" in f.id:
+            continue
+        if re.search(r"::_::<impl ", f.id):
+            derived += 1
+        else:
+            manual.append(f)
+    for f in manual:
+        m = re.match(r"<([\w:]+)(<.*?>)? as ", f.id)
+        ty = m.group(1) if m else f.id
+        ok = ty == "redis::data::sds::SDS"
+        ck.check(ok, "R14.15", "manual-serde:%s:%s%s" % (ty.rsplit("::", 1)[-1], "ser" if "Serialize" in (f.d.get("implements") or "") else "de", _tag(cfg)),
+                 "%s has a hand-written serde impl: its field coverage is not the derive's, so the encoding may omit or rebuild fields" % ty, f.where(),
+                 detail="frozen: SDS writes/reads its raw bytes (R14.5)")
+    ck.floor("R14.15" + _tag(cfg), derived, 40)
